@@ -161,7 +161,7 @@ def generate(seed, tier, batch):
         return {"kind": "dyne", "backend": backend, "hbar": hbar, "n": n, "prep": prep, "meas": gen_meas(r, n, kinds),
                 "rejections": r.choice([0, 0, 1, 3, 6]) if backend == "bosonic" else 0, "proposal": r.choice(["target", "peak"]),
                 "native": batch == "native-rng", "tape": seed, "refused_first": backend == "gaussian" and batch != "native-rng" and r.random() < 0.2,
-                "refused_variant": r.choice(["kw_meas", "stored_gates_select", "kw_gates_select"])}
+                "refused_variant": r.choice(["kw_meas", "stored_gates_select", "kw_gates_select"]), "refused_select": random.Random("c06r:%d" % seed).choice([0.2, -0.4, 0.0])}
     if batch == "xsel":
         n = r.randint(2, 4)
         prep = gen_gauss_prep(r, n, r.randint(2, 7))
@@ -196,8 +196,10 @@ def generate(seed, tier, batch):
         ms = r.sample(range(n), r.randint(1, n))
         kind = r.choice(["fock", "fock", "thr"])
         dark = [rnd(r, 0, 1.5) for _ in ms] if kind == "fock" and r.random() < 0.4 else None
+        rg_ = random.Random("c06g:%d" % seed)
+        gsel = [rg_.choice([0, 1]) if kind == "thr" else rg_.choice([0, 1, 2]) for _ in ms] if (dark is None and rg_.random() < 0.15) else None
         return {"kind": "gauss-count", "hbar": hbar, "n": n, "prep": prep, "mk": kind, "modes": ms, "dark": dark,
-                "shots": r.choice([1, 1, 2, 4]), "tape": seed}
+                "shots": r.choice([1, 1, 2, 4]) if gsel is None else 1, "tape": seed, "gc_select": gsel}
     if batch == "collation":
         return gen_collation(r, seed, hbar)
     raise KeyError(batch)
@@ -682,7 +684,7 @@ def run_dyne(script, w, backend, collect=None, shared_prog=None):
                     # gates followed by a post-selected measurement, with several shots: the engine documents that it refuses this
                     # combination - before anything of the program is executed.  The shot count comes from the call or from the program.
                     bad = build_program({"ops": [{"op": "Sgate", "p": [0.4, 0.3], "m": [script["meas"][0]["m"]]}, {"op": "Dgate", "p": [0.5, 1.0], "m": [0]},
-                                                 {"op": "MeasureHomodyne", "p": [0.3], "kw": {"select": 0.2}, "m": [script["meas"][0]["m"]]}]}, parent=prep_prog)
+                                                 {"op": "MeasureHomodyne", "p": [0.3], "kw": {"select": script.get("refused_select", 0.2)}, "m": [script["meas"][0]["m"]]}]}, parent=prep_prog)
                     if variant == "stored_gates_select":
                         bad.run_options = {"shots": 3}
                         eng.run(bad)
@@ -1237,6 +1239,8 @@ def exec_gauss_count(script, w):
     kw = {}
     if script.get("dark"):
         kw["dark_counts"] = script["dark"]
+    if script.get("gc_select") is not None:
+        kw["select"] = script["gc_select"]
     op = {"op": "MeasureFock" if kind == "fock" else "MeasureThreshold", "m": ms, "kw": kw, "fresh": True}
     saved = (gb.hafnian_sample_state, gb.torontonian_sample_state)
     with simenv:
@@ -1250,9 +1254,21 @@ def exec_gauss_count(script, w):
                 res = eng.run(prog, shots=shots)
             except Violation:
                 return
+            except NotImplementedError:
+                if script.get("gc_select") is not None:
+                    w.probes["gaussian_count_postselection_refused_as_documented"] += 1  # "Gaussian backend currently does not support postselection"
+                    return
+                raise
         finally:
             gb.hafnian_sample_state, gb.torontonian_sample_state = saved
     if w.violations:
+        return
+    if script.get("gc_select") is not None:
+        # the request was served: then the outcome reported is the post-selected one (a post-selection silently ignored returns whatever was drawn)
+        got_ = np.asarray(res.samples).astype(int)
+        want_ = np.array([script["gc_select"]])[:, np.argsort(ms)]
+        if got_.shape != want_.shape or not np.array_equal(got_, want_):
+            w.violation("conditioning", "post-selected-count-outcome-ignored", {"select": script["gc_select"], "measured_order": ms, "samples": got_.tolist(), "kind": kind}, feats)
         return
     if len(ctx["calls"]) != 1:
         w.violation("born", "gaussian-count-sampler-calls", {"calls": len(ctx["calls"])}, feats)
